@@ -225,3 +225,48 @@ def validate_trace(ctx, cfg, ndjson_path, timeout=600):
         return r
     finally:
         shutil.rmtree(d, ignore_errors=True)
+
+
+def to_tla(v):
+    """Python value -> TLA+ expression (lists -> tuples, dicts -> records)."""
+    if isinstance(v, bool):
+        return 'TRUE' if v else 'FALSE'
+    if isinstance(v, int):
+        return str(v)
+    if isinstance(v, str):
+        return '"%s"' % v
+    if isinstance(v, (list, tuple)):
+        return '<<' + ', '.join(to_tla(x) for x in v) + '>>'
+    if isinstance(v, dict):
+        return '[' + ', '.join('%s |-> %s' % (k, to_tla(x)) for k, x in v.items()) + ']'
+    raise ValueError(v)
+
+
+def scripted(ctx, cfg, script, name, timeout=600):
+    """Let TLC follow a hand-written schedule (list of [action, node(, argument)]) through Tendermint.tla and return the
+    behaviour with the full spec state after every step (a directed witness). Internal steps may omit the message.
+    Returns (trace or None, number of steps TLC could follow)."""
+    defs = cfg.extra_defs + '\nScript == ' + to_tla([list(s) for s in script]) + '''
+Follow == LET k == TLCGet("level") IN
+            /\\ k <= Len(Script)
+            /\\ LET e == Script[k] IN /\\ act'[1] = e[1] /\\ act'[2] = e[2]
+                                     /\\ (Len(e) >= 3 => act'[3] = e[3])
+ScriptNotDone == TLCGet("level") <= Len(Script)
+'''
+    c = Cfg(cfg.name + '-script-' + name, cfg.power, cfg.byz, cfg.max_round, cfg.max_height, cfg.nbyz, cfg.budget, cfg.crashes,
+            cfg.crash_set, False, False, sync=False, torn=cfg.torn, invariants=['ScriptNotDone'], properties=[],
+            constraint=False, extra_defs=defs)
+    c.tables = cfg.tables
+    d = gen_dir(ctx, c)
+    try:
+        with open(os.path.join(d, 'MC_gen.cfg'), 'a') as f:
+            f.write('ACTION_CONSTRAINT Follow\n')
+        r = tlc.run(d, 'MC_gen.tla', 'MC_gen.cfg', workers=1, timeout=timeout)
+    finally:
+        shutil.rmtree(d, ignore_errors=True)
+    cfg.tables = c.tables
+    if r.violation != 'ScriptNotDone' or not r.trace:
+        return None, max(0, r.depth - 1), r
+    t = trace_of(c, r, 'script-' + name)
+    t['cfg'] = cfg.driver_cfg()
+    return t, len(t['steps']), r
